@@ -78,8 +78,10 @@ def build(D, res="main", mc=1):
         tags = D.get("tags", {}).get(str(k)) or None
         if k in (D.get("calltag") or []):
             tags = None         # this node gets its tags where it is called (twz_tag), not where it is decorated
+        # a node with ONE tag declares it as a plain string (tag="t") on some DAGs, as a tuple (tag=("t",)) on others
+        one = tags[0] if tags and len(tags) == 1 and D.get("plaintag") else None
         xs[k] = xn(mk(), debug=D["kind"][k - 1] == "debug", setup=D["kind"][k - 1] == "setup",
-                   resource=resource, tag=tuple(tags) if tags else None)
+                   resource=resource, tag=one if one is not None else (tuple(tags) if tags else None))
     lines = []
     sa = D.get("setuparg", 0)       # a setup node that takes an argument of the DAG: must be refused when the DAG is built
     for k in range(1, D["n"] + 1):
@@ -92,7 +94,8 @@ def build(D, res="main", mc=1):
         if ad[0] == k:
             parts.append(f"twz_active=v{ad[1]}")          # an activation flag is a dependency like any argument
         if k in (D.get("calltag") or []) and D.get("tags", {}).get(str(k)):
-            parts.append(f"twz_tag={tuple(D['tags'][str(k)])!r}")
+            ct = D["tags"][str(k)]
+            parts.append(f"twz_tag={(ct[0] if len(ct) == 1 and D.get('plaintag') else tuple(ct))!r}")
         lines.append(f"    v{k} = X[{k}]({', '.join(parts)})")
     # some return positions are an indexed usage of the node's result (("v", k)[1] == k): an unexecuted node reads as None there too
     idx = D.get("idxret") or []
@@ -222,7 +225,7 @@ def selections(D, rng, limit):
 def run_dag(D, rng, limit, forms=("id", "ref", "tag", "grp")):
     """All observations for one DAG description; returns the JSON record for SelCheck."""
     rec = {"n": D["n"], "deps": D["deps"], "kind": D["kind"], "const": D["const"], "tags": D.get("tags", {}),
-           "obs": [], "als": [], "built": True, "setuparg": D.get("setuparg", 0), "idxret": D.get("idxret") or [], "calltag": D.get("calltag") or [], "actdep": D.get("actdep") or [0, 0],
+           "obs": [], "als": [], "built": True, "setuparg": D.get("setuparg", 0), "idxret": D.get("idxret") or [], "calltag": D.get("calltag") or [], "actdep": D.get("actdep") or [0, 0], "plaintag": bool(D.get("plaintag")),
            "tagseq": [D.get("tags", {}).get(str(k), []) for k in range(1, D["n"] + 1)]}
     try:
         base, ids, xs = build(D, res=D.get("res", "main"), mc=D.get("mc", 1))
@@ -279,6 +282,15 @@ def dag_space(n, rng, const_mode="sample", with_illegal=True):
                 if rng.random() < 0.3 and n >= 2:
                     a, b = rng.sample(range(1, n + 1), 2)
                     tags[str(b)].append(f"f{a}")     # a tag equal to another node's id: the tag wins
+                if rng.random() < 0.4 and n >= 2:
+                    # names contained in one another: the only tag of b contains a's tag / a's id as a proper substring, and
+                    # tags are written as plain strings - an alias selects by equality, never by containment
+                    a, b = rng.sample(range(1, n + 1), 2)
+                    if len(tags[str(b)]) == 1:
+                        tags[str(b)] = [rng.choice([f"t{a}x", f"xt{a}", f"f{a}0", f"xf{a}"])]
+                    D2["plaintag"] = True
+                elif rng.random() < 0.3:
+                    D2["plaintag"] = True
                 D2["tags"] = tags
                 if rng.random() < 0.4:
                     D2["calltag"] = [k for k in range(1, n + 1) if rng.random() < 0.5]
